@@ -6,6 +6,7 @@ import (
 	"errors"
 	"fmt"
 	"io"
+	"math"
 	"net/url"
 	"sort"
 	"strings"
@@ -37,7 +38,8 @@ func apisimExec(r *Run) {
 	w := NewWorld(r)
 	defer w.Destroy()
 	a := &apiSim{r: r, w: w, nt: map[string]int{}}
-	a.excess = []int{6, 0, 1, 2, 100}[r.T.Pick([]int{40, 15, 15, 15, 15}, "excess")]
+	// MaxInt32 = "no limit": the window arithmetic must not wrap (wave 9, C02-m8); request heights stay within int32 (clampH)
+	a.excess = []int{6, 0, 1, 2, 100, math.MaxInt32}[r.T.Pick([]int{40, 15, 15, 15, 15, 8}, "excess")]
 	w.Cfg.MerkleRoot.MaxBlockHeightExcess = a.excess
 	r.Cfg["excess"] = a.excess
 	// metrics can only be switched on once per process (package-level registry): the runner gives every other worker
@@ -228,9 +230,9 @@ func (a *apiSim) c02() {
 			it = verifyItem{a.h.uniqueHash("unknown-root").String(), int64(t.Range(0, int(tip), "h"))}
 		case 4: // heights around tip + excess
 			x := a.anyHeader("any-idx")
-			it = verifyItem{x.Raw.Merkle.String(), tip + int64(a.excess) + int64(t.Range(-3, 3, "dh"))}
+			it = verifyItem{x.Raw.Merkle.String(), clampH(tip + int64(a.excess) + int64(t.Range(-3, 3, "dh")))}
 		case 5: // unknown root above the tip
-			it = verifyItem{a.h.uniqueHash("unknown-root").String(), tip + int64(t.Range(-1, a.excess+3, "dh"))}
+			it = verifyItem{a.h.uniqueHash("unknown-root").String(), clampH(tip + int64(t.Range(-1, a.excess+3, "dh")))}
 		case 6: // negative / huge heights
 			x := a.anyHeader("any-idx")
 			it = verifyItem{x.Raw.Merkle.String(), []int64{-1, -3, -2147483648, 2147483647, 2147483646 - tip}[t.Draw(5, "odd-h")]}
@@ -370,7 +372,7 @@ func (a *apiSim) c02Concurrent() {
 		return pre(hh)
 	}
 	items := []verifyItem{{rootX, tip + 1}, {lc[tip].Raw.Merkle.String(), tip}, {h.uniqueHash("unknown-root").String(), tip + 1},
-		{rootX, tip + 1 + int64(a.excess)}, {h.uniqueHash("unknown-root").String(), tip + 1 + int64(a.excess)}, {rootX, tip}}
+		{rootX, clampH(tip + 1 + int64(a.excess))}, {h.uniqueHash("unknown-root").String(), clampH(tip + 1 + int64(a.excess))}, {rootX, tip}}
 	// a drawn subset in a drawn order
 	n := t.Range(1, len(items), "cv-n")
 	for i := 0; i < n; i++ {
@@ -1400,4 +1402,12 @@ func truncate(s string, n int) string {
 		return s[:n] + "..."
 	}
 	return s
+}
+
+// clampH keeps a generated request height inside the int32 the request format has.
+func clampH(x int64) int64 {
+	if x > math.MaxInt32 {
+		return math.MaxInt32
+	}
+	return x
 }
